@@ -30,6 +30,11 @@ CHECKS = {
     text='TLC checks TrimEquiv (every output evaluation after Trim(I,O) returns Fresh of the untrimmed sheet) over all evaluate/set_value histories before and after the trim for sampled (I,O) choices incl. range inputs and buried inputs; the tour executes every transition on the real ExcelCompiler and compares each output with the untrimmed model under the same assignments, directly and after to_file/from_file (yml, json, pkl), plus the projected state incl. the frozen set.',
     note='outputs are evaluated before the trim (frozen cells need a value); only leaf inputs are assigned after the trim; |I|,|O| <= 2',
     ref='§3 C08'),
+ 'C12': dict(
+    technique='Validate.tla (the validate_calcs work list over the Engine model with stored results) checked by TLC for every (altered cell, stored value, outputs, tolerance) choice; each behaviour realised as an .xlsx with patched stored results and run through validate_calcs',
+    text='TLC checks the report relation (consistent => empty; altered reachable cell named with stored and recomputed value; only dependants reported; unevaluable cells under exceptions) on every behaviour of the implementation-shaped work-list model and exports the final report; the same cases are run on real .xlsx files (openpyxl + patched <v> elements, broken cells through an unknown function or a raising plugin) and the returned dict must satisfy the relation; the model report is compared too (drift).',
+    note='1<->TRUE family excluded; tolerance None or 2; workbooks are the 5-8 node engine shapes',
+    ref='§3 C12'),
  'C18': dict(
     technique='TLA+ odometer machine (Radix.tla) model-checked by TLC; every reachable state exported as a vector and executed on the real functions',
     text='TLC checks the two\'s-complement definitions (successor adds one, regrouping of bits agrees, extremes) on all 1024 binary strings and on 128-step walks across every octal/hex boundary; each visited state is then a test vector for DEC2x/x2DEC/x2y, places 1..10, illegal characters and over-long strings, through library calls and compiled formulas.',
